@@ -144,14 +144,19 @@ def probe_class():
         def _LogLikelihood(self, *a, **k):
             v = super()._LogLikelihood(*a, **k)
             try:
-                self.verif_cond.append((float(v), cond_bound(np.asarray(self.u), np.asarray(self.w))))
+                u_, w_ = np.asarray(self.u), np.asarray(self.w)
+                # a logged hyperedge with rate 0 (memberships truncated to 0): the log-likelihood is -inf by definition and the
+                # number returned is an artefact of the epsilons inside the logarithms
+                dead = any(all(w_[len(e) - 2, k] == 0 or any(u_[i, k] == 0 for i in e) for k in range(u_.shape[1]))
+                           for e in self.verif_edges)
+                self.verif_cond.append((float(v), cond_bound(u_, w_), dead))
             except Exception:
                 pass
             return v
     return Probe
 
 
-def fit_mt(cfg, h, probe=False):
+def fit_mt(cfg, h, probe=False, edges_rows=()):
     from hypergraphx.communities.hypergraph_mt.model import HypergraphMT
     if probe:
         HypergraphMT = probe_class()
@@ -162,7 +167,7 @@ def fit_mt(cfg, h, probe=False):
     random.seed(cfg["seed"])
     m = HypergraphMT(verbose=False, n_realizations=cfg["n_realizations"], max_iter=cfg["max_iter"],
                      check_convergence_every=cfg["every"], min_value_par=cfg["min_value_par"])
-    m.verif_cond = []
+    m.verif_cond, m.verif_edges = [], list(edges_rows)
     u, w, L = m.fit(h, K=cfg["K"], seed=cfg["seed"], normalizeU=cfg["normalizeU"], baseline_r0=cfg["baseline_r0"])
     ev = list(hk.EVENTS) if hk is not None else None
     return m, np.array(u), np.array(w), float(L), ev
@@ -203,7 +208,8 @@ def observe(cfg, idx):
     # ---- Hypergraph-MT
     with quiet():
         try:
-            m, u, w, L, ev = fit_mt(cfg, h, probe=True)
+            E_rows = [tuple(int(r) for r in inc[:, [j]].nonzero()[0]) for j in range(inc.shape[1])]
+            m, u, w, L, ev = fit_mt(cfg, h, probe=True, edges_rows=E_rows)
             m2, u2, w2, L2, _ = fit_mt(cfg, h)
         except Exception as ex:
             info["raised"].append(("HypergraphMT.fit", repr(ex)))
@@ -250,10 +256,11 @@ def observe(cfg, idx):
         reals = [int(a) for a in ti["realization"]]
         for r in sorted(set(reals)):
             ix = [j for j, a in enumerate(reals) if a == r]
-            tr_, _ = EM.ranks([tl[j] for j in ix], extra=[cond[j][1] for j in ix])
+            tr_, _ = EM.ranks([-math.inf if cond[j][2] else tl[j] for j in ix], extra=[cond[j][1] for j in ix])
             for j, c_ in zip(ix, tr_):
                 tcode[j] = c_
         info["rounding_bounds"] = [c_[1] for c_ in cond]
+        info["impossible_hyperedge"] = [c_[2] for c_ in cond]
     events, ends = [], {}
     if ev is not None:
         ends = {e["r"]: e for e in ev if e["kind"] == "mt_end"}
@@ -292,7 +299,7 @@ def end_event(r, ends, code):
 
 
 def validate(res, tier, rng, only=None):
-    n_cfg = 240 if tier == "quick" else 3000
+    n_cfg = 480 if tier == "quick" else 6000
     cfgs = [config(rng, i, tier) for i in range(n_cfg)] if only is None else only
     cases, cidx, traces, tidx, infos = [], [], [], [], []
     for i, cfg in enumerate(cfgs):
@@ -359,7 +366,8 @@ def validate(res, tier, rng, only=None):
         prop = sorted({c for _, f in rj for c in f if not c.startswith("m:")})
         model = sorted({c for _, f in rj for c in f if c.startswith("m:")})
         payload = {"config": cfg, "train_info": infos[i].get("train_info"), "maxL": infos[i].get("maxL"), "rejected_events": rj,
-                   "events": traces[t]["ev"]}
+                   "events": traces[t]["ev"], "impossible_hyperedge": infos[i].get("impossible_hyperedge"),
+                   "rounding_bounds": infos[i].get("rounding_bounds")}
         if prop:
             res.reject({"clauses": prop, "method": "mt", "normalizeU": cfg["normalizeU"]},
                        "HypergraphMT.fit train_info breaks %s (first at event %d): %s" % (",".join(prop), rj[0][0], short(cfg)), payload)
@@ -392,7 +400,8 @@ def run(tier, seed):
         "rank per realisation: neighbours closer than 1e-9*max(1,|L|) + the rounding bound of the parameters the value was computed from are "
         "merged by single linkage; that bound, 1e-12 * sum_{d,k} w_dk max_{d'<=d} C(N,d') max(1,max u_k)^d, is read by a subclass that observes "
         "_LogLikelihood during fit - when a community dies out w reaches 1e15 and the reported value wobbles by 1e-2 from rounding alone; such "
-        "steps are not judged; without the observer ascent is not judged at all and counted), matrices as flags decided in Python "
+        "steps are not judged; a value computed while a logged hyperedge has rate 0 (a membership truncated to 0) counts as -inf, its definition, "
+        "instead of the epsilon artefact recorded; without the observer ascent is not judged at all and counted), matrices as flags decided in Python "
         "(finite, >= 0, zero row, |row sum - 1| <= 1e-6 + K*min_value_par) and integer entry codes for the HySC matrix",
         "the agreement of maxL with the definition (min_value_par = 0, check_convergence_every = 1) is computed in Python from the definition with "
         "brute-force elementary symmetric polynomials over all node subsets; tolerance 1e-8*max(1,|L|) plus the forward rounding bound "
